@@ -19,11 +19,11 @@ func init() { core.Register(c19{}) }
 func (c19) ID() string    { return "C19" }
 func (c19) Level() string { return "exploration" }
 func (c19) Rule() string {
-	return "cases = command sequences of 50..400 commands over 3..6 keys x 3..5 fields/members mixing strings with TTL (0, +10^4 h, -1 h only: expiry never depends on when the check runs), hashes, sets, lists (push/pop at both ends, pops on empty lists) and sorted sets (score updates, re-adding with the same score), wrong-type commands on every type pair, Del + re-creation with another type, commands on expired strings, and 1..4 restarts; store with small DataFileSize so that structure updates span rotations, all index types and both I/O types. Every reply is normalised to an abstract outcome (present(v) / absent / bool / size / score / type / wrong-type) and compared with an in-memory reference model of the five types, immediately and again for a full read-back of all keys/fields/members after every restart. Non-trivial: sequence using >=4 of the 5 types, >=1 wrong-type reply, >=1 Del + re-creation and >=1 restart; distinct = hash of (config, command log)"
+	return "cases = command sequences of 50..400 commands over 3..6 keys x 3..5 fields/members mixing strings with TTL (0, +10^4 h, -1 h, 250 years, MaxInt64 only: expiry never depends on when the check runs), hashes, sets, lists (push/pop at both ends, pops on empty lists) and sorted sets (score updates, re-adding with the same score), wrong-type commands on every type pair, Del + re-creation with another type, commands on expired strings, and 1..4 restarts; store with small DataFileSize so that structure updates span rotations, all index types and both I/O types. Every reply is normalised to an abstract outcome (present(v) / absent / bool / size / score / type / wrong-type) and compared with an in-memory reference model of the five types, immediately and again for a full read-back of all keys/fields/members after every restart. Non-trivial: sequence using >=4 of the 5 types, >=1 wrong-type reply, >=1 Del + re-creation and >=1 restart; distinct = hash of (config, command log)"
 }
 func (c19) Assumptions() []string {
 	return []string{"absence encodings ((nil,nil), ErrKeyNotFound, (-1,nil)) are normalised to `absent`", "string values are non-empty; hash fields and list elements may be empty, in which case HGet/LPop/RPop replies are compared modulo `empty == absent` (the API cannot tell them apart) while HSet/HDel flags and sizes are compared exactly",
-		"a container emptied by removals keeps its type until Del (the model follows the engine here; the statement does not say)", "TTL only far past / far future", "members/fields are short strings that cannot collide with the internal key encoding", "scores are never -1 (ZScore encodes absence as -1)"}
+		"a container emptied by removals keeps its type until Del (the model follows the engine here; the statement does not say)", "TTL only far past / far future (incl. time.Duration(MaxInt64) and 250 years, whose stored deadline overflows int64 nanoseconds)", "members/fields are short strings that cannot collide with the internal key encoding", "scores are never -1 (ZScore encodes absence as -1)"}
 }
 func (c19) Required() []string {
 	return []string{"replies_compared", "wrong_type_replies", "restarts", "del_recreate", "expired_key_commands", "readback_compared"}
@@ -260,7 +260,8 @@ func (c19) Run(c core.Case, w *core.Worker) core.Result {
 		pv, st := core.Safe(func() {
 			switch cmd := r.Intn(19); cmd {
 			case 0: // Set
-				ttl := []time.Duration{0, 10000 * time.Hour, -time.Hour}[r.Intn(3)]
+				// "for ever" TTLs overflow the stored deadline; they must behave as far future
+				ttl := []time.Duration{0, 10000 * time.Hour, -time.Hour, time.Duration(1<<63 - 1), 250 * 365 * 24 * time.Hour}[r.Intn(5)]
 				v := val()
 				logl = append(logl, fmt.Sprintf("Set(%s,len=%d,ttl=%v)", k, len(v), ttl))
 				err := svc.Set(kb, v, ttl)
